@@ -2,7 +2,7 @@
 import itertools
 import numpy as np
 
-from .. import repo, core, gen, wire
+from .. import repo, core, gen, wire, extract
 from ..base import BaseCheck
 from lapy import TetMesh, TriaMesh
 
@@ -72,6 +72,9 @@ class Check(BaseCheck):
                 if self.quick and rng.random() > 0.2:
                     continue
                 yield dict(v=v6, t=gen.orient_tets_positive(v6, t6[list(sub)]), name="sub-cube6")
+
+    def translate(self):
+        extract.gen_tet_orient()
 
     def correspond(self, drv, stats):
         fails = []
